@@ -16,7 +16,8 @@
   `checkModel_missed_counterexample`, `checkModel_false_alarm_counterexample`,
   `checkModel_false_alarm_root_counterexample`, `checkModel_edc_missed_counterexample`.
   What is proved about M for all models: `checkModel_accepts_edc_direct` (an accepted model has no
-  two visited element particles with the same name and different types).
+  two visited element particles with the same name and different types) and
+  `checkModel_v11_element_wildcard_never_error` (XSD 1.1: no UPA error between an element and a wildcard).
 -/
 import XsVerif.Lemmas.Upa
 import XsVerif.Lemmas.CheckModel
@@ -142,6 +143,39 @@ theorem checkModel_accepts_edc_direct (M : Ctx) (p : Particle) (h : M.accepts p 
       (M.info v1).name = (M.info v2).name → (M.info v1).ty = (M.info v2).ty :=
   accepts_edc_direct M p h
 
+/-- **XSD 1.1 precedence clause**: in XSD 1.1 the pinned algorithm never refuses a model because of
+    an element particle competing with a wildcard — whenever `check_model` raises a UPA error (either
+    form), the two particles are of the same kind; element/wildcard competitions are recorded as
+    precedences instead.  Every model, every shape. -/
+theorem checkModel_v11_element_wildcard_never_error (M : Ctx) (hv : M.v11 = true) (p : Particle) (pe e : Nat)
+    (h : (M.checkModel p).err = some (.upa pe e) ∨ (M.checkModel p).err = some (.sameGroup pe e)) :
+    M.isAny pe = M.isAny e := by
+  rcases h with h | h
+  · exact outer_err M hv _ _ _ _ h
+  · exact outer_err M hv _ _ _ _ h
+
+/-- The same clause on the specification side: under XSD 1.1 an element particle and a wildcard never
+    compete, so they can never be the two particles of a UPA violation. -/
+theorem spec_v11_element_wildcard_never_compete (p : Particle) (x y : Nat)
+    (h : isAnyId p x ≠ isAnyId p y) : competing true p x y = false := by
+  simp [competing, h]
+
+/-- Spec sanity: a model in which no two different particles match a common name of Σ is
+    deterministic (whatever its shape and occurrence ranges). -/
+theorem upa_of_disjoint (sigma : List QN) (v11 : Bool) (p : Particle)
+    (h : ∀ l1 ∈ p.leaves, ∀ l2 ∈ p.leaves, l1.id ≠ l2.id → ∀ a ∈ sigma,
+      ¬ (l1.matches a = true ∧ l2.matches a = true)) : UPA sigma v11 p := by
+  intro u v1 v2 a x y _ _ _ ha hcomp hl1 hl2
+  obtain ⟨l1, hm1, hx⟩ := Rx.lang_syms mm p.toRx _ hl1 (a, x) (by simp)
+  obtain ⟨l2, hm2, hy⟩ := Rx.lang_syms mm p.toRx _ hl2 (a, y) (by simp)
+  rw [Particle.leaves_toRx] at hm1 hm2
+  simp only [mm, Bool.and_eq_true, beq_iff_eq] at hx hy
+  have hne : l1.id ≠ l2.id := by
+    rw [hx.1, hy.1]
+    simp only [competing, Bool.and_eq_true, bne_iff_ne] at hcomp
+    exact hcomp.1
+  exact h l1 hm1 l2 hm2 hne a ha ⟨hx.2, hy.2⟩
+
 /-! ### M deviates from S (known finding C15-F0): concrete witnesses, replayed on the real code -/
 
 def qa : QN := ⟨"urn:t", "a"⟩
@@ -238,6 +272,17 @@ def pPrec : Particle :=
     (.cons (.leaf (.elem 2 [qa]) 1 (some 1)) .nil))
 example : ¬ UPA [qa] false pPrec ∧ UPA [qa] true pPrec :=
   ⟨upa_witness_sound [qa] false pPrec [] (qa, 1) (qa, 2) (by decide), upa_of_isCert _ _ _ 10 (by decide)⟩
+
+/-- `(any[##other] | any[urn:o])` in XSD 1.1: a UPA error between two wildcards (hypotheses of
+    `checkModel_v11_element_wildcard_never_error` are met) -/
+def pTwoAny : Particle :=
+  .group 0 .choice 1 (some 1) (.cons (.leaf (.any 1 { ns := .other, tns := "urn:t" }) 1 (some 1))
+    (.cons (.leaf (.any 2 { ns := .set ["urn:o"], tns := "urn:t" }) 1 (some 1)) .nil))
+example : ((ctxOf true 3 pTwoAny []).checkModel pTwoAny).err = some (.sameGroup 1 2) := by decide
+
+/-- `(a, b)`: the hypothesis of `upa_of_disjoint` holds -/
+example : ∀ l1 ∈ pOk.leaves, ∀ l2 ∈ pOk.leaves, l1.id ≠ l2.id → ∀ a ∈ [qb], ¬ (l1.matches a = true ∧ l2.matches a = true) := by
+  decide
 
 /-- the hypotheses of `checkModel_accepts_edc_direct` are met by a model with two same-named elements -/
 example : (ctxOf false 4 pOk [(1, { name := qa, ty := 0 }), (2, { name := qb, ty := 0 }), (3, { name := qa, ty := 0 })]).accepts pOk = true ∧
